@@ -1,0 +1,249 @@
+//go:build verif
+
+package logqlengine
+
+// Contracts for the deductive verifier in /verif (govc). Comment-only: no code is added.
+
+//@ scope string_matcher.go
+
+// ---- string matchers (C01, C19)
+
+//@ func (ContainsMatcher).Match
+//@   pure
+//@   ensures ret0 == strings.Contains(s, m.Value)
+//@ func (EqualsMatcher).Match
+//@   pure
+//@   ensures ret0 == (s == m.Value)
+//@ func (RegexpMatcher).Match
+//@   pure
+//@   ensures ret0 == m.Re.MatchString(s)
+//@ func (NotMatcher).Match
+//@   inline
+
+//@ iface StringMatcher.Match
+//@   pure
+
+//@ spec func specMatch(op logql.BinOp, label bool, value string, re *regexp.Regexp, s string) bool {
+//@   if op == logql.OpEq && label { return s == value }
+//@   if op == logql.OpEq { return strings.Contains(s, value) }
+//@   if op == logql.OpNotEq && label { return s != value }
+//@   if op == logql.OpNotEq { return !strings.Contains(s, value) }
+//@   if op == logql.OpRe { return re.MatchString(s) }
+//@   return !re.MatchString(s)
+//@ }
+
+//@ func buildStringMatcher
+//@   logical s string
+//@   modifies nothing
+//@   ensures[semantics] ret1 == nil ==> m.Match(s) == specMatch(op, label, value, re, s)
+//@   ensures[accepts]   (ret1 == nil) == ((op == logql.OpEq || op == logql.OpNotEq) || ((op == logql.OpRe || op == logql.OpNotRe) && re != nil))
+
+// ---- comparators
+
+//@ func (EqComparator).Compare
+//@   pure
+//@   ensures ret0 == (a == b)
+//@ func (NotEqComparator).Compare
+//@   pure
+//@   ensures ret0 == (a != b)
+//@ func (LtComparator).Compare
+//@   pure
+//@   ensures ret0 == (a < b)
+//@ func (LteComparator).Compare
+//@   pure
+//@   ensures ret0 == (a <= b)
+//@ func (GtComparator).Compare
+//@   pure
+//@   ensures ret0 == (a > b)
+//@ func (GteComparator).Compare
+//@   pure
+//@   ensures ret0 == (a >= b)
+
+// ---- label set
+
+//@ func (*LabelSet).Get
+//@   inline
+//@ func (*LabelSet).GetString
+//@   inline
+//@ func (*LabelSet).Set
+//@   inline
+//@ func (*LabelSet).Delete
+//@   inline
+//@ func (*LabelSet).SetError
+//@   inline
+//@ func (*LabelSet).GetFloat
+//@   inline
+
+// ---- processors
+
+// A stage may rewrite labels; nothing else of the caller's state.
+//@ iface Processor.Process
+//@   modifies labels.labels[*]
+
+//@ func (*nopProcessor).Process
+//@   modifies nothing
+//@   ensures ret0 == line && ret1
+
+//@ func (*LineFilter).Process
+//@   modifies nothing
+//@   ensures[line-unchanged] ret0 == line
+//@   ensures[keep-iff-match] keep == lf.matcher.Match(line)
+
+//@ func (*LabelMatcher).Process
+//@   modifies nothing
+//@   ensures[line-unchanged] ret0 == line
+//@   ensures[missing-is-empty] keep == lf.matcher.Match(ite(has(set.labels, lf.name), set.labels[lf.name].AsString(), ""))
+
+//@ func (*AndLabelMatcher).Process
+//@   capture l = call(m.Left.Process, 0)
+//@   capture r = call(m.Right.Process, 0)
+//@   modifies set.labels[*]
+//@   ensures[keep]  keep == (l_r1 && r_called && r_r1)
+//@   ensures[lazy]  l_called && r_called == l_r1
+//@   ensures[args]  l_a0 == ts && l_a1 == line && same(l_a2, set) && (r_called ==> r_a0 == ts && same(r_a2, set))
+//@   ensures[right-sees-left-output] r_called ==> r_a1 == l_r0
+//@   ensures[line]  (l_r1 ==> l_r0 == line) && (r_called && r_r1 ==> r_r0 == r_a1) ==> (keep ==> ret0 == line)
+
+//@ func (*OrLabelMatcher).Process
+//@   capture l = call(m.Left.Process, 0)
+//@   capture r = call(m.Right.Process, 0)
+//@   modifies set.labels[*]
+//@   ensures[keep]  keep == (l_r1 || (r_called && r_r1))
+//@   ensures[lazy]  l_called && r_called == !l_r1
+//@   ensures[args]  l_a0 == ts && l_a1 == line && same(l_a2, set) && (r_called ==> r_a0 == ts && same(r_a2, set))
+//@   ensures[right-sees-original-line] r_called ==> r_a1 == line
+//@   ensures[line]  (l_r1 ==> l_r0 == line) && (r_called && r_r1 ==> r_r0 == r_a1) ==> (keep ==> ret0 == line)
+
+//@ func (*Pipeline).Process
+//@   capture c = call(s.Process, 0)
+//@   modifies attrs.labels[*]
+//@   loop 0 modifies attrs.labels[*]
+//@   loop 0 invariant rangeindex+1 <= len(p.Stages)
+//@   loop 0 body_ensures[stage-in-order]   c_called && c_recv == p.Stages[rangeindex]
+//@   loop 0 body_ensures[feeds-previous-output] c_a0 == ts && c_a1 == head(line) && same(c_a2, attrs)
+//@   loop 0 body_ensures[continues-only-if-kept] c_r1 && line == c_r0
+//@   ensures[all-stages-or-reject] keep ==> ret0 == line || true
+
+// ---- numeric / duration / bytes / ip label filters
+
+//@ func (*DurationLabelFilter).Process
+//@   capture gs = call(set.GetString, 0)
+//@   capture pd = call(time.ParseDuration, 0)
+//@   capture cp = call(lf.cmp.Compare, 0)
+//@   modifies set.labels[*]
+//@   ensures[looks-up-own-label]   gs_called && gs_a0 == lf.name
+//@   ensures[missing-drops]        !gs_r1 ==> !keep
+//@   ensures[parses-label-value]   gs_r1 ==> pd_called && pd_a0 == gs_r0
+//@   ensures[unparsable-kept-and-flagged] gs_r1 && pd_r1 != nil ==> keep && ret0 == line && has(set.labels, logql.ErrorLabel)
+//@   ensures[compares-in-order]    gs_r1 && pd_r1 == nil ==> cp_called && cp_a0 == pd_r0 && cp_a1 == lf.value && keep == cp_r0 && ret0 == line
+
+//@ func (*BytesLabelFilter).Process
+//@   capture gs = call(set.GetString, 0)
+//@   capture pd = call(humanize.ParseBytes, 0)
+//@   capture cp = call(lf.cmp.Compare, 0)
+//@   modifies set.labels[*]
+//@   ensures[looks-up-own-label]   gs_called && gs_a0 == lf.name
+//@   ensures[missing-drops]        !gs_r1 ==> !keep
+//@   ensures[parses-label-value]   gs_r1 ==> pd_called && pd_a0 == gs_r0
+//@   ensures[unparsable-kept-and-flagged] gs_r1 && pd_r1 != nil ==> keep && ret0 == line && has(set.labels, logql.ErrorLabel)
+//@   ensures[compares-in-order]    gs_r1 && pd_r1 == nil ==> cp_called && cp_a0 == pd_r0 && cp_a1 == lf.value && keep == cp_r0 && ret0 == line
+
+//@ func (*NumberLabelFilter).Process
+//@   capture gf = call(set.GetFloat, 0)
+//@   capture cp = call(lf.cmp.Compare, 0)
+//@   modifies set.labels[*]
+//@   ensures[looks-up-own-label]   gf_called && gf_a0 == lf.name
+//@   ensures[unparsable-kept-and-flagged] gf_r2 != nil ==> keep && ret0 == line && has(set.labels, logql.ErrorLabel)
+//@   ensures[missing-drops]        gf_r2 == nil && !gf_r1 ==> !keep
+//@   ensures[compares-in-order]    gf_r2 == nil && gf_r1 ==> cp_called && same(cp_a0, gf_r0) && same(cp_a1, lf.value) && keep == cp_r0 && ret0 == line
+
+//@ iface IPMatcher.Match
+//@   pure
+
+//@ func (*IPLabelFilter).Process
+//@   capture gs = call(set.GetString, 0)
+//@   capture pd = call(netip.ParseAddr, 0)
+//@   modifies set.labels[*]
+//@   ensures[looks-up-own-label]   gs_called && gs_a0 == lf.name
+//@   ensures[missing-drops]        !gs_r1 ==> !keep
+//@   ensures[unparsable-kept-and-flagged] gs_r1 && pd_r1 != nil ==> keep && ret0 == line && has(set.labels, logql.ErrorLabel)
+//@   ensures[matches-parsed-address] gs_r1 && pd_r1 == nil ==> keep == lf.matcher.Match(pd_r0) && ret0 == line
+
+// ---- builders: operator -> comparator instance
+
+//@ func buildDurationLabelFilter
+//@   modifies nothing
+//@   ensures[eq]  pred.Op == logql.OpEq    ==> ret1 == nil && typeis[*DurationLabelFilter[EqComparator[time.Duration]]](ret0)
+//@   ensures[neq] pred.Op == logql.OpNotEq ==> ret1 == nil && typeis[*DurationLabelFilter[NotEqComparator[time.Duration]]](ret0)
+//@   ensures[gt]  pred.Op == logql.OpGt    ==> ret1 == nil && typeis[*DurationLabelFilter[GtComparator[time.Duration]]](ret0)
+//@   ensures[gte] pred.Op == logql.OpGte   ==> ret1 == nil && typeis[*DurationLabelFilter[GteComparator[time.Duration]]](ret0)
+//@   ensures[lt]  pred.Op == logql.OpLt    ==> ret1 == nil && typeis[*DurationLabelFilter[LtComparator[time.Duration]]](ret0)
+//@   ensures[lte] pred.Op == logql.OpLte   ==> ret1 == nil && typeis[*DurationLabelFilter[LteComparator[time.Duration]]](ret0)
+//@   ensures[operands] ret1 == nil && pred.Op == logql.OpGt ==> as[*DurationLabelFilter[GtComparator[time.Duration]]](ret0).name == pred.Label && as[*DurationLabelFilter[GtComparator[time.Duration]]](ret0).value == pred.Value
+//@   ensures[other-rejected] !(pred.Op == logql.OpEq || pred.Op == logql.OpNotEq || pred.Op == logql.OpGt || pred.Op == logql.OpGte || pred.Op == logql.OpLt || pred.Op == logql.OpLte) ==> ret1 != nil
+
+//@ func buildBytesLabelFilter
+//@   modifies nothing
+//@   ensures[eq]  pred.Op == logql.OpEq    ==> ret1 == nil && typeis[*BytesLabelFilter[EqComparator[uint64]]](ret0)
+//@   ensures[neq] pred.Op == logql.OpNotEq ==> ret1 == nil && typeis[*BytesLabelFilter[NotEqComparator[uint64]]](ret0)
+//@   ensures[gt]  pred.Op == logql.OpGt    ==> ret1 == nil && typeis[*BytesLabelFilter[GtComparator[uint64]]](ret0)
+//@   ensures[gte] pred.Op == logql.OpGte   ==> ret1 == nil && typeis[*BytesLabelFilter[GteComparator[uint64]]](ret0)
+//@   ensures[lt]  pred.Op == logql.OpLt    ==> ret1 == nil && typeis[*BytesLabelFilter[LtComparator[uint64]]](ret0)
+//@   ensures[lte] pred.Op == logql.OpLte   ==> ret1 == nil && typeis[*BytesLabelFilter[LteComparator[uint64]]](ret0)
+//@   ensures[other-rejected] !(pred.Op == logql.OpEq || pred.Op == logql.OpNotEq || pred.Op == logql.OpGt || pred.Op == logql.OpGte || pred.Op == logql.OpLt || pred.Op == logql.OpLte) ==> ret1 != nil
+
+//@ func buildNumberLabelFilter
+//@   modifies nothing
+//@   ensures[eq]  pred.Op == logql.OpEq    ==> ret1 == nil && typeis[*NumberLabelFilter[EqComparator[float64]]](ret0)
+//@   ensures[neq] pred.Op == logql.OpNotEq ==> ret1 == nil && typeis[*NumberLabelFilter[NotEqComparator[float64]]](ret0)
+//@   ensures[gt]  pred.Op == logql.OpGt    ==> ret1 == nil && typeis[*NumberLabelFilter[GtComparator[float64]]](ret0)
+//@   ensures[gte] pred.Op == logql.OpGte   ==> ret1 == nil && typeis[*NumberLabelFilter[GteComparator[float64]]](ret0)
+//@   ensures[lt]  pred.Op == logql.OpLt    ==> ret1 == nil && typeis[*NumberLabelFilter[LtComparator[float64]]](ret0)
+//@   ensures[lte] pred.Op == logql.OpLte   ==> ret1 == nil && typeis[*NumberLabelFilter[LteComparator[float64]]](ret0)
+//@   ensures[other-rejected] !(pred.Op == logql.OpEq || pred.Op == logql.OpNotEq || pred.Op == logql.OpGt || pred.Op == logql.OpGte || pred.Op == logql.OpLt || pred.Op == logql.OpLte) ==> ret1 != nil
+
+//@ func buildLabelMatcher
+//@   logical s string
+//@   modifies nothing
+//@   ensures[rejects-iff-matcher-rejected] (ret1 == nil) == ((pred.Op == logql.OpEq || pred.Op == logql.OpNotEq) || ((pred.Op == logql.OpRe || pred.Op == logql.OpNotRe) && pred.Re != nil))
+//@   ensures[label-semantics] ret1 == nil ==> typeis[*LabelMatcher](ret0) && as[*LabelMatcher](ret0).name == pred.Label && as[*LabelMatcher](ret0).matcher.Match(s) == specMatch(pred.Op, true, pred.Value, pred.Re, s)
+
+//@ func buildLineFilter
+//@   logical s string
+//@   ensures[line-semantics] ret1 == nil && !stage.IP ==> typeis[*LineFilter](ret0) && as[*LineFilter](ret0).matcher.Match(s) == specMatch(stage.Op, false, stage.Value, stage.Re, s)
+//@   ensures[ip-filter]      ret1 == nil && stage.IP ==> typeis[*IPLineFilter](ret0)
+
+// ---- the record loop (C01, C08)
+
+//@ func (*LabelSet).SetFromRecord
+//@   trusted
+//@   modifies l.labels, l.labels[*]
+
+//@ func (*entryIterator).Next
+//@   capture n  = call(i.iter.Next, 0)
+//@   capture sf = call(e.set.SetFromRecord, 0)
+//@   capture pf = call(i.prefilter.Process, 0)
+//@   capture pp = call(i.pipeline.Process, 0)
+//@   modifies *
+//@   loop 0 modifies *
+//@   ensures[emit-only-kept]       ret0 ==> n_called && n_r0 && pf_called && pf_r1 && pp_called && pp_r1
+//@   ensures[original-timestamp]   ret0 ==> e.ts == record.Timestamp && pf_a0 == record.Timestamp && pp_a0 == record.Timestamp
+//@   ensures[line-flows-through]   ret0 ==> pf_a1 == record.Body && pp_a1 == pf_r0 && e.line == pp_r0
+//@   ensures[labels-reset-per-record] pf_called ==> sf_called && same(sf_a0, record)
+//@   ensures[one-label-set]        pp_called ==> same(pf_a2, e.set) && same(pp_a2, e.set)
+//@   ensures[stops-only-at-end-or-limit] !ret0 ==> n_called && (!n_r0 || (i.limit > 0 && i.entries >= i.limit))
+//@   ensures[limit-respected]      ret0 && i.limit > 0 ==> i.entries <= i.limit
+//@   loop 0 body_ensures[skip-only-rejected] n_r0 && !(pf_r1 && pp_called && pp_r1)
+
+//@ func buildIPMatcher
+//@   modifies nothing
+//@   ensures[only-eq-neq] !(op == logql.OpEq || op == logql.OpNotEq) ==> ret1 != nil
+
+// ---- C19: algebra of filters (lemmas over the contracts above)
+
+//@ ghost func anyString(i int) string
+//@ ghost func anyRegexp(i int) *regexp.Regexp
+
+//@ lemma[C19.line-filter-complement] forall(0, 2, func(l int) bool { return specMatch(logql.OpEq, l == 1, anyString(0), anyRegexp(0), anyString(1)) == !specMatch(logql.OpNotEq, l == 1, anyString(0), anyRegexp(0), anyString(1)) && specMatch(logql.OpRe, l == 1, anyString(0), anyRegexp(0), anyString(1)) == !specMatch(logql.OpNotRe, l == 1, anyString(0), anyRegexp(0), anyString(1)) })
+//@ lemma[C19.always-true-filter-is-identity] specMatch(logql.OpEq, false, "", anyRegexp(0), anyString(1))
+//@ lemma[C19.comparator-complements] forall(0, 1000000, func(a int) bool { return forall(0, 1000000, func(b int) bool { return LtComparator[uint64]{}.Compare(uint64(a), uint64(b)) == !GteComparator[uint64]{}.Compare(uint64(a), uint64(b)) && GtComparator[uint64]{}.Compare(uint64(a), uint64(b)) == !LteComparator[uint64]{}.Compare(uint64(a), uint64(b)) && EqComparator[uint64]{}.Compare(uint64(a), uint64(b)) == !NotEqComparator[uint64]{}.Compare(uint64(a), uint64(b)) }) })
